@@ -19,6 +19,12 @@ TF = float(os.environ.get("PVC_TIME_FACTOR", "8"))
 SMALL_RL = int(os.environ.get("PVC_SMALL_RLIMIT", "3000000"))
 
 
+# z3 5.1's Diophantine-equation module (lp.dio) has loops over exploding big rationals that poll neither the timeout nor the
+# resource limit (one obligation on a mutated tree ran for 30 CPU-minutes inside lp::dioph_eq::imp::substitute_on_q); the
+# classical integer machinery (cuts, branching) stays on
+z3.set_param("lp.dio", False)
+
+
 class Verdict:
     PROVED = "proved"
     REFUTED = "refuted"
